@@ -10,3 +10,7 @@ import CliUtils.Props.C08
 import CliUtils.Props.C09
 import CliUtils.Props.C16
 import CliUtils.Props.C18
+import CliUtils.Props.C02
+import CliUtils.Props.C04
+import CliUtils.Props.C05
+import CliUtils.Props.C10
